@@ -13,7 +13,7 @@ REAL_STUB = {
         "V3CoreLib / AaveV3CoreLib / gmx_v2 utils", "demeter.strategy.Strategy + Trigger classes",
         "uniswap.data.fillna/resample, uniswap.helper._add_statistic_column/get_price_from_data",
     ],
-    "stub": ["tqdm progress bar (no-op)", "logging (disabled)", "CSV/feather loaders and CacheManager (frames are built in memory in the loaders' output format; only C02's loader-twin check writes minute files and reads them back through the real uniswap loader, with the feather cache pointed at a private empty directory)"],
+    "stub": ["tqdm progress bar (no-op)", "logging (disabled)", "CSV/feather loaders and CacheManager (frames are built in memory in the loaders' output format; only C02's loader-twin check (uniswap) and 15 % of C10's worlds (aave) write minute files and read them back through the real loaders, with the feather cache pointed at a private empty directory)"],
     "left real, irrelevant to results": ["time.time() duration log", "datetime.now() in save_result (private cwd)"],
 }
 
